@@ -328,8 +328,8 @@ fn c13_oracle(sc: &Scenario, ex: &Execution, info: &mut CaseInfo) -> Vec<Finding
 fn c13_conc_strategy(_t: Tier) -> BoxedStrategy<Scenario> {
     // a sink task that is parking while other threads drop the receivers
     let q = gen::qcfg(BOTH, FutMode::Always, prop_oneof![Just(1u8), Just(2u8)].boxed(), gen::wait_any());
-    (q, 0u8..3, 1usize..=2, any::<bool>(), gen::schedule(300), vec(any::<bool>(), 3)).prop_map(
-        |(q, extra_rx, droppers, two_sinks, sched, unsub)| {
+    (q, 0u8..3, 1usize..=2, any::<bool>(), gen::schedule(300), vec(any::<bool>(), 3), vec(0u8..3, 3)).prop_map(
+        |(q, extra_rx, droppers, two_sinks, sched, unsub, conv)| {
             let n = q.n();
             let mut main = Vec::new();
             for _ in 0..n {
@@ -371,6 +371,12 @@ fn c13_conc_strategy(_t: Tier) -> BoxedStrategy<Scenario> {
                 main.push(Op::Spawn { prog: p, tx: vec![], rx: vec![0; take] });
                 let mut ops = Vec::new();
                 for k in 0..take {
+                    // the handle may leave as a single-consumer receiver (its own Drop impl);
+                    // the conversion is refused, and the handle kept as it is, while the stream
+                    // has other handles
+                    if conv[(d + k) % 3] == 0 {
+                        ops.push(Op::IntoSingle { rx: 0 });
+                    }
                     if unsub[(d + k) % 3] {
                         ops.push(Op::UnsubRx { rx: 0 });
                     } else {
@@ -1113,6 +1119,16 @@ fn c18_oracle(sc: &Scenario, ex: &Execution, info: &mut CaseInfo) -> Vec<Finding
     info.class(format!("probes_with_frozen_midcall={}", ex.stats.probes_with_frozen_midcall.min(4)));
     info.nontrivial = ex.stats.probes_with_frozen_midcall > 0;
     let _ = note_stuck(&h, info);
+    // the property is stated for queues whose wait strategy needs no notification (busy or
+    // yielding): a futures queue (FutWait) or a blocking one takes the waiters' lock inside try
+    // operations by design.  The generators stay inside that domain; a mutated (fuzzed) or
+    // hand-written scenario that leaves it is not judged.
+    let in_domain = !sc.q.futures && !matches!(sc.q.wait, crate::handles::WaitKind::Block(..) | crate::handles::WaitKind::BlockDefault);
+    info.class(format!("inside_property_domain={}", in_domain));
+    if !in_domain {
+        info.nontrivial = false;
+        return Vec::new();
+    }
     keep(orc::verdict_findings(&h, false), &["CallDoesNotReturn", "CallBlocks"])
 }
 
@@ -1593,10 +1609,18 @@ pub fn registry() -> Vec<PropDef> {
     ]
 }
 
+fn c14_seq_strategy(t: Tier) -> BoxedStrategy<Scenario> {
+    prop_oneof![
+        8 => c15_random(t),
+        1 => gen::crowd_scenario(seq_opts()),
+    ]
+    .boxed()
+}
+
 pub fn c14_seq_part() -> Part {
     Part {
         name: "seq_notify",
-        source: Source::Random { strategy: c15_random, cases: cases_fn!(5000, 80000) },
+        source: Source::Random { strategy: c14_seq_strategy, cases: cases_fn!(5000, 80000) },
         oracle: c14_seq_oracle,
     }
 }
